@@ -89,6 +89,8 @@ def do_op(st, op, ids):
         return st.set_recipients_delivered(ids[l], [0, 2])
     if k == 'rm':
         return st.remove(ids[l])
+    if k == 'load':
+        return sorted(i for t, i in st.load())        # the start-up scan of a second consumer of the directory
 
 
 def run_history(hist, overlap=None, ch=None, short=False):
@@ -479,9 +481,12 @@ def configs(tier, seed):
             for b in opsB:
                 cfgs.append({'mode': 'overlap', 'a': list(a), 'b': list(b), 'd': 2})
         cfgs.append({'mode': 'overlap', 'a': ['write', 'A'], 'b': ['write', 'B'], 'd': 2})
+        for b in (['write', 'B'], ['inc', 'B'], ['dlv', 'B'], ['rm', 'B']):
+            cfgs.append({'mode': 'overlap', 'a': ['load', 'A'], 'b': b, 'd': 2})
     else:
         # two operations on different messages overlapping in time (aio completions interleaved), one deviation
-        for a, b in ((('write', 'A'), ('write', 'B')), (('inc', 'A'), ('inc', 'B')), (('ts', 'A'), ('write', 'B')), (('dlv', 'A'), ('rm', 'B'))):
+        for a, b in ((('write', 'A'), ('write', 'B')), (('inc', 'A'), ('inc', 'B')), (('ts', 'A'), ('write', 'B')), (('dlv', 'A'), ('rm', 'B')),
+                     (('load', 'A'), ('write', 'B')), (('load', 'A'), ('inc', 'B'))):
             cfgs.append({'mode': 'overlap', 'a': list(a), 'b': list(b), 'd': 1})
     # aio requests completing for fewer bytes than asked (legal): every placement of one (thorough: two) short completions
     for h in ([['write', 'A']], [['write', 'A'], ['inc', 'A']], [['write', 'A'], ['dlv', 'A'], ['ts', 'A']], [['write', 'A'], ['write', 'B'], ['rm', 'A']]):
